@@ -72,6 +72,7 @@ def shards(tier, seed):
     out.append(("child_free", dict(kind="free", rounds=100 if q else 1000, _pyopt="opt")))
     out.append(("share", dict(kind="share", count=100 if q else 2000)))
     out.append(("handoff", dict(kind="handoff", count=60 if q else 1500)))
+    out.append(("copies", dict(kind="copies")))
     for i in range(2 if q else 6):
         out.append(("mixed_roles_%d" % i, dict(kind="mixed_roles", count=60 if q else 600, limit=150 if q else 3000)))
     out.append(("long_run", dict(kind="long_run", rounds=(1, 2, 255, 256, 257, 258, 300, 1000) if q else (1, 2, 3, 127, 128, 255, 256, 257, 258, 300, 1000, 32768, 65537, 70000))))
@@ -210,6 +211,9 @@ def one_run(r, w, rounds, decider, hooks=None, trace=False, second_lock=None, mi
     return s, mon, lock, ok
 
 
+_QN = {"i": 0}
+
+
 def quiescent(lock):
     """All mutexes free, counters zero, fresh rounds succeed (probe mode)."""
     if isinstance(lock, _Multi):
@@ -244,7 +248,9 @@ def quiescent(lock):
             probs.append("fresh round would block: %s" % e)
         except RuntimeError as e:
             probs.append("fresh round: %s" % e)
-    if not probs:
+    _QN["i"] += 1
+    if not probs and _QN["i"] % 8 == 0:
+        # (every eighth call: each probe starts a thread)
         # black-box exclusion probes, each on a deep copy of the lock at rest (a refused acquire leaves the protocol half-way):
         # with one holder inside, the conflicting acquire must have to wait; a second reader must not
         import copy
@@ -468,6 +474,64 @@ def run(ctx, name, kind, **kw):
                     dec = S.random_decider(rng, rng.choice((0.1, 0.3, 0.6))) if i % 3 else S.pct_decider(rng, len(plan), 3, 120)
                     s_, mon, lock, ok = one_run(0, 0, 1, dec, None, mixed=plan)
                     judge(ctx, "schedule.mixed_roles", (len(plan), 0), s_, mon, lock, ok, seen, dict(roles=list(plan)))
+        elif kind == "copies":
+            # copies of a lock (copy.copy / deepcopy / pickle), made at rest or while somebody holds the original: making one may be refused,
+            # but a copy that exists is a reader-writer lock - with a reader inside it, a writer has to wait (and the other way round)
+            import copy
+            import pickle
+            for held in (None, "reader", "writer", "reader2"):
+                for how, mk in (("copy", copy.copy), ("deepcopy", copy.deepcopy), ("pickle", lambda o: pickle.loads(pickle.dumps(o)))):
+                    _install_shim()
+                    S.VLock.counter = 0
+                    S.VLock.sched = None
+                    lock = RW.RWLock()
+                    try:
+                        if held in ("reader", "reader2"):
+                            lock.reader_acquire()
+                        if held == "reader2":
+                            lock.reader_acquire()
+                        if held == "writer":
+                            lock.writer_acquire()
+                        try:
+                            twin = mk(lock)
+                        except Exception:
+                            ctx.count("copy_refused.%s" % how)
+                            continue
+                        ctx.case("copies", key="%s|%s" % (held, how), nontrivial=True)
+                        probs = []
+                        for first, second, must_wait in (("reader", "writer", True), ("writer", "reader", True), ("writer", "writer", True)):
+                            t2 = mk(twin) if how != "copy" else copy.deepcopy(twin)
+                            box = {}
+
+                            def _first(t2=t2, first=first, box=box):
+                                try:
+                                    getattr(t2, first + "_acquire")()
+                                    box["in"] = True
+                                except S.Deadlock:
+                                    box["in"] = False          # the copy is (still) held by whoever held the original: it waits, fine
+                                except BaseException as e:  # noqa
+                                    box["exc"] = e
+                            th = threading.Thread(target=_first)
+                            th.start()
+                            th.join(10)
+                            if "exc" in box:
+                                probs.append("%s_acquire on the copy raised %s: %s" % (first, type(box["exc"]).__name__, box["exc"]))
+                                continue
+                            if not box.get("in"):
+                                continue
+                            try:
+                                getattr(t2, second + "_acquire")()
+                                waited = False
+                            except S.Deadlock:
+                                waited = True
+                            except Exception as e:
+                                probs.append("%s_acquire on the copy raised %s: %s" % (second, type(e).__name__, e))
+                                continue
+                            if waited != must_wait:
+                                probs.append("on a copy made by %s while %s held the original: a %s gets in while a %s is inside" % (how, held or "nobody", second, first))
+                        ctx.check(not probs, "copy_of_the_lock_is_not_a_lock", "; ".join(probs), dict(held=held, how=how))
+                    except Exception as ex:
+                        ctx.violation("lock_operation_raised", "copies probe (%s, %s): %s: %s" % (held, how, type(ex).__name__, ex), dict(held=held, how=how))
         elif kind == "long_run":
             # many rounds on one lock object, no concurrency at all: after N read rounds a writer gets in, after N write rounds a reader
             # does, and exclusion still holds (counters that only behave for small values)
